@@ -135,8 +135,8 @@ def ignore_weights(t, X, case, directed, signed=False):
             pair(t, lab, case, F(nm + '(W)', getattr(bct, nm)), F(nm + '(binarised W)', getattr(bct, nm)), X, B)
         pair(t, lab, case, F('distance_bin(W)', bct.distance_bin), F('distance_bin(binarised W)', bct.distance_bin), X, B)
         return
-    names += ['degrees_dir', 'density_dir', 'edge_nei_overlap_bd'] if directed else \
-        ['degrees_und', 'density_und', 'edge_nei_overlap_bu', 'get_components']
+    names += ['degrees_dir', 'density_dir', 'edge_nei_overlap_bd', 'jdegree'] if directed else \
+        ['degrees_und', 'density_und', 'edge_nei_overlap_bu', 'get_components', 'jdegree']
     for nm in names:
         pair(t, lab, case, F(nm + '(W)', getattr(bct, nm)), F(nm + '(binarised W)', getattr(bct, nm)), X, B)
     flags = (1, 2, 3, 4) if directed else (0,)
